@@ -268,6 +268,10 @@ let run (path : string) =
       | ["U"; u; app; asset; lid] -> Hashtbl.replace !o.o_umap (u ^ "," ^ app ^ "," ^ asset) (zo lid)
       | ["T"; lid; app; v] -> Hashtbl.replace !o.o_trk (lid ^ "," ^ app) (zo v)
       | ["B"; acct; d; v] -> Hashtbl.replace !o.o_bank (acct ^ "," ^ d) (zo v)
+      | ["note"; "v2pen:split_mismatch"] ->
+        (* generation-2 penalty: collector share + keeper share <> LockedVault.FeeToBeCollected *)
+        mismatch ~case:!case ~step:!step ~field:"v2pen.split" ~model:"penalty=collector+keeper" ~impl:"differs"
+      | ["note"; k] -> bump ("note:" ^ k)
       | ["end"] -> finish_step ()
       | _ -> ()
     ) lines;
